@@ -1,6 +1,7 @@
 """C20 — Autocorrelation helpers compute the documented normalised autocorrelation (partial: FFT numerics are runtime)."""
 from checks import big_scale
 from checks import extra_c20fft
+from checks import pure_fns
 LEAN_TARGETS = ["QmcProps.C20", "drv_c20", "QmcProps.C20FFT"]
 BINS = ["c20"]
 
@@ -56,6 +57,7 @@ RULE = ("scripted steppers walking through prescribed state / observable sequenc
 
 
 def main(ck):
+    pure_fns.run(ck)   # source->Lean translation of the arithmetic around the FFT calls (group Autocorr) and of the measuring loop (group Stepper), re-proved equal to the hand models
     if ck.lake_build(LEAN_TARGETS):
         ck.audit("QmcProps.C20", ["Qmc.C20." + t for t in THEOREMS])
     if ck.cargo_build(BINS):
